@@ -135,7 +135,10 @@ def step (st : St) (j : Json) : St × List String :=
     let (st, o) := observe st "skew"
     (st, [o])
   | "sweep" =>
-    let (w, r) := sweep st.cfg id st.w
+    -- did:nuts DIDs for which the real IsCommitted said "no" (matters only where the contents are equal)
+    let no := (jNats j "nutsno").filterMap (fun l => st.didLbl[l]?)
+    let cfg := { st.cfg with rawSame := fun d _ => !no.contains d }
+    let (w, r) := sweep cfg id st.w
     let (st, o) := observe { st with w := w } r
     (st, [o])
   | "do" =>
